@@ -3,6 +3,7 @@ import Driver.C20
 import Driver.C07
 import Driver.C16
 import Driver.C17
+import Driver.C18
 import Driver.Mp4
 open Driver
 
@@ -16,6 +17,7 @@ def dispatch (line : String) : String :=
     | "C07" | "C08" => Driver.C07.handle prop kv
     | "C16" => Driver.C16.handle kv
     | "C17" => Driver.C17.handle kv
+    | "C18" => Driver.C18.handle kv
     | "C01" | "C02" | "C03" | "C04" | "C05" => Driver.Mp4.handle prop kv
     | "#" => "NOTE " ++ " ".intercalate rest
     | _ => s!"ERR ? unknown-prop {prop}"
